@@ -31,6 +31,7 @@ type c07Step struct {
 	prev, next State
 	report     map[string]interface{}
 	fired      bool
+	alteredAt  int // index of the first earlier report that a later stage altered (-1: none)
 }
 
 // runPath executes root+biases by stepping; returns the last transition and the stepper.
@@ -48,8 +49,11 @@ func runPath(req M) (st *Stepper, last c07Step, failAt int, err error) {
 		}
 		var rep map[string]interface{}
 		jsonUnmarshal(st.RepJSON[len(st.RepJSON)-1], &rep)
-		last = c07Step{prev: prev, next: StateOf(st.Current), report: rep, fired: fired}
+		last = c07Step{prev: prev, next: StateOf(st.Current), report: rep, fired: fired, alteredAt: -1}
 		i++
+	}
+	if at, ok := st.ReportsStable(); !ok {
+		last.alteredAt = at
 	}
 	return st, last, -1, nil
 }
@@ -294,10 +298,19 @@ func c07Plans(s *Shard) [][][]M {
 	for seed := 0; seed < 4; seed++ {
 		adders = append(adders, bias("criteriaConcealment", refStrategy(M{"randomSeed": seed}, 1)))
 	}
-	if quick(s) {
-		return [][][]M{{full, full}, {core, core, core}, {adders, adders}}
+	// enabled entries that lose their activation draw (probability 0): they change nothing, whatever came before
+	var idle []M
+	for _, b := range []M{core[2], core[0], core[4]} {
+		nb := M{"applyProbability": 0.0}
+		for k, v := range b {
+			nb[k] = v
+		}
+		idle = append(idle, nb)
 	}
-	return [][][]M{{full, full}, {medium, medium, medium}, {core, core, core, core}, {adders, adders, adders}}
+	if quick(s) {
+		return [][][]M{{full, full}, {core, core, core}, {adders, adders}, {core, idle}, {idle, core}}
+	}
+	return [][][]M{{full, full}, {medium, medium, medium}, {core, core, core, core}, {adders, adders, adders}, {medium, idle, core}, {idle, medium}}
 }
 
 func c07Run(s *Shard) {
